@@ -7,7 +7,9 @@ import OdxVerif.Proofs.CompKeyBase
       payload pair `Pair.bytesAt` at the parameter's position, given what `length_keys` says about the key;
     * a VALUE parameter over a PARAM-LENGTH-INFO-TYPE DOP of any of the nine leaf kinds with at least one bit (`Obj.toPLParam`,
       any bit position / encoding / byte order): `encodeParam` / `decodeParam` are those of the standard-length object with
-      the key's number of bits (`Obj.encodeParam_pl`, `Obj.decodeParam_pl`).
+      the key's number of bits (`Obj.encodeParam_pl`, `Obj.decodeParam_pl`);
+    * `KeyDop dop o v i`: what the proofs use of the DOP of a LENGTH-KEY in general (the two checks of the encoder pass, the second
+      pass writes the coded value `i` into the object `o`, the decoder returns the bit length `v`); `KeyDop.identical`.
     Core Lean only. -/
 set_option linter.unusedSimpArgs false
 namespace OdxVerif.Codec
